@@ -833,7 +833,9 @@ Section WS.
                      end in
         if stale then
           let p := cache_path s in
-          match write_file (w_fs w1) (s_root s ++ [DOTSIG; CACHETMPFN]) (mkContent [] (Some (JObj c2))) with
+          (* the .signac directory always exists in a real project (it holds the config); the model creates it on demand *)
+          let f0 := match makedirs (w_fs w1) (s_root s ++ [DOTSIG]) with FOk f => f | FErr _ => w_fs w1 end in
+          match write_file f0 (s_root s ++ [DOTSIG; CACHETMPFN]) (mkContent [] (Some (JObj c2))) with
           | FErr e => (w1, inr (FOs e))
           | FOk f1 =>
               match rename f1 (s_root s ++ [DOTSIG; CACHETMPFN]) p with
